@@ -19,6 +19,8 @@ work on the second run and which pass created that work).
 from __future__ import annotations
 
 import itertools
+import json
+import os
 import random
 import time
 
@@ -173,7 +175,8 @@ def mirror_run(env, node, deps, st, validate=True):
 
 def trace_idempotence(env, unit, deps, st, validate=True):
   """(P, Q): P = first pass that changes Optimize(U) on the second run, Q = the pass
-  of the first run after which P has work to do again."""
+  of the first run after which P has work to do again (and keeps having it until the
+  end of that run)."""
   steps, states = mirror_run(env, unit, deps, st, validate)
   if steps is None:
     return "?", "?"
@@ -190,13 +193,15 @@ def trace_idempotence(env, unit, deps, st, validate=True):
     return "?", "?"
   pname, pf = steps2[p_idx]
   last = max(i for i, (n, _) in enumerate(steps) if n == pname)
+  # Q = the pass after which P has work that is still there at the end of the first run:
+  # walk back from the final state while P would change the state.
   q = "?"
-  for j in range(last, len(steps)):
+  for j in range(len(steps) - 1, last - 1, -1):
     try:
       s = states[j + 1]
-      if not unit_eq(pf(s), s):
-        q = steps[j][0]
+      if unit_eq(pf(s), s):
         break
+      q = steps[j][0]
     except Exception:   # pylint: disable=broad-except
       break
   if q == pname:
@@ -461,6 +466,17 @@ class Judge:
     if idem_fail:
       self.count("not_idempotent_cases")
       self._report_idem(unit, deps, st, o1, o2, idem_fail, origin, unit_text)
+      if o2 is not None:
+        # the second run is an optimisation of a stub too: it must only widen as well
+        cmp2 = env.dn.compare_units(o1, o2, den, lossless=False, max_union=st["max_union"] or 7)
+        self.count("second_run_widening_checks")
+        self.count("membership_evaluations", cmp2.values)
+        seen_what = set()
+        for p in cmp2.problems:
+          if p["what"] not in seen_what:
+            seen_what.add(p["what"])
+            self._report_compare(o1, deps, st, den, p, origin, unit_text,
+                                 stage="re-optimisation")
 
   # .. reporting ...........................................................
   def _diff_paths(self, a, b):
@@ -497,7 +513,7 @@ class Judge:
       witness.setdefault(k, v)
     n = self.per_key.get(key, 0)
     self.per_key[key] = n + 1
-    if n < 3:
+    if n < 2:
       witness["key"] = key
       self.violations.append(witness)
     self.tables["mechanisms"][key] = self.tables["mechanisms"].get(key, 0) + 1
@@ -523,9 +539,13 @@ class Judge:
       self._classify_idem(small, deps, st, origin, unit_text, path)
     if not done:
       p, q = trace_idempotence(env, unit, deps, st)
-      key = (f"not idempotent ({'lossless' if is_lossless(st) else 'non-default'} settings): {p} "
-             f"has work left after {q}; whole unit, not reproduced on a single declaration")
+      if is_lossless(st):
+        key = f"not idempotent under the lossless settings: {p} has work left after {q}"
+      else:
+        key = f"not idempotent under non-default settings: {p} has work left on the second run"
       self._emit(key, {"origin": origin, "settings": st, "unit_text": unit_text,
+                       "what": "not idempotent",
+                       "note": "not reproduced on a single declaration; whole unit traced",
                        "first": env.text(o1)[:4000], "second": env.text(o2)[:4000]})
 
   def _idem_with_pair(self, unit, deps, st, pair):
@@ -566,7 +586,9 @@ class Judge:
                "decl_size": len(env.text(decl)) if decl is not None else 10 ** 6}
     self._emit(key, witness)
 
-  def _report_compare(self, unit, deps, st, den, prob, origin, unit_text):
+  def _report_compare(self, unit, deps, st, den, prob, origin, unit_text, stage="first run"):
+    """`unit` is the input of the run that shows the problem (for stage "re-optimisation"
+    it is the output of the first run)."""
     env = self.env
     what = prob["what"]
     small = None
@@ -577,11 +599,11 @@ class Judge:
       except Exception:   # pylint: disable=broad-except
         pass
       break
-    witness = {"origin": origin, "settings": st, "unit_text": unit_text,
+    witness = {"origin": origin, "settings": st, "unit_text": unit_text, "stage": stage,
                "declaration": prob["path"], "problem": prob}
     if small is None:
       pname = trace_compare(env, unit, deps, st, den, what)
-      self._emit(self._compare_key(what, pname, flags(st), prob), witness)
+      self._emit(self._compare_key(what, pname, st, stage), witness)
       return
     st_min = minimal_settings(st, lambda s: self._has_problem(small, deps, s, den, what))
     if what == "overwide" and not is_lossless(st_min):
@@ -601,20 +623,20 @@ class Judge:
     decl, _ = _the_decl(small2)
     d1, _ = _the_decl(o1)
     witness.update(minimal_settings=st_min, minimal_input=env.text(decl),
+                   minimal_input_repr=repr(decl)[:1500],
                    optimised=env.text(d1) if d1 is not None else None, minimal_problem=p2)
-    self._emit(self._compare_key(what, pname, flags(st_min), p2), witness)
+    witness["minimal_flags"] = flags(st_min)
+    self._emit(self._compare_key(what, pname, st_min, stage), witness)
 
   @staticmethod
-  def _compare_key(what, pname, lab, prob):
-    site = prob.get("site", "?")
-    if site.startswith("signature #") or site.startswith("new signature #"):
-      site = "signature"
-    vk = prob.get("value_kind") or "declaration"
+  def _compare_key(what, pname, st, stage):
+    cls = "lossless settings" if is_lossless(st) else "non-default settings"
+    where = "" if stage == "first run" else " when an optimised stub is optimised again"
     if what == "narrowed":
-      return f"narrowed by {pname} [{lab}]: {site} no longer admits a {vk}"
+      return f"narrowed by {pname}{where} ({cls})"
     if what == "dropped":
-      return f"dropped by {pname} [{lab}]: {site} missing after optimisation"
-    return f"wider than the permitted rewrites after {pname} [{lab}]: {site} admits a {vk}"
+      return f"declaration or signature dropped by {pname}{where} ({cls})"
+    return f"wider than the permitted rewrites after {pname}{where} ({cls})"
 
   def result(self):
     return {"n": self.n, "fps": self.fps, "samples": self.samples, "violations": self.violations,
@@ -793,7 +815,7 @@ def _absorb_monitor_record(J, rec, origin, src):
     if after == before:      # could not be re-derived off-line: report what the monitor saw
       J.ctx = {"program": src}
       for p in rec["problems"]:
-        J._emit(J._compare_key(p["what"], "?", flags(rec["settings"]) + ", in-situ", p),   # pylint: disable=protected-access
+        J._emit(J._compare_key(p["what"], "? (in-situ, not re-derived)", rec["settings"], "first run"),   # pylint: disable=protected-access
                 {"origin": origin, "problem": p, "before": rec.get("before_text"),
                  "after": rec.get("after_text")})
       if rec["idempotent"] is False:
@@ -943,17 +965,30 @@ def child(arg):
 
 
 def _tasks(tier, seed):
+  tasks = _all_tasks(tier, seed)
+  only = os.environ.get("VERIF_C11_ONLY")     # development aid: e.g. "hand,gen" or "gen:4"
+  if only:
+    keep = []
+    for spec in only.split(","):
+      kind, _, lim = spec.partition(":")
+      sel = [t for t in tasks if t["id"].startswith(kind + "/")]
+      keep += sel[:int(lim)] if lim else sel
+    tasks = keep
+  return tasks
+
+
+def _all_tasks(tier, seed):
   rng = random.Random(f"{PID}-{seed}-tasks")
   tasks = []
   if tier == "quick":
-    gen_batches, gen_count, nsettings, all_every = 24, 36, 5, 18
-    prog_batches, prog_count = 10, 10
+    gen_batches, gen_count, nsettings, all_every = 16, 30, 5, 15
+    prog_batches, prog_count = 8, 8
     bundled_sets = [(["builtins"], 3, False), (["typing"], 4, False),
                     ([m for m in BUNDLED if m not in ("builtins", "typing")], 6, False)]
     soft = 45
   else:
-    gen_batches, gen_count, nsettings, all_every = 64, 120, 8, 10
-    prog_batches, prog_count = 32, 25
+    gen_batches, gen_count, nsettings, all_every = 48, 100, 8, 10
+    prog_batches, prog_count = 24, 20
     bundled_sets = [(["builtins"], 0, True), (["typing"], 0, True),
                     ([m for m in BUNDLED if m not in ("builtins", "typing")], 0, True)]
     soft = 600
@@ -988,6 +1023,11 @@ def run(tier, seed):
             "real pipeline for generated programs (in-situ monitor); bundled stubs via the real loader. "
             "non-trivial = the optimiser changed the unit; distinct by hash of (input text, settings, "
             "optimised text)."))
+  extra_known = os.environ.get("VERIF_C11_KNOWN")   # development aid: private list of keys
+  if extra_known:
+    with open(extra_known) as f:
+      for k in json.load(f):
+        ck.known.setdefault(k, {"key": k})
   tasks = _tasks(tier, seed)
   kinds = {"gen": 0, "hand": 0, "programs": 0, "bundled": 0}
   monitor = {"calls": 0, "checked": 0, "errors": 0}
@@ -1038,9 +1078,11 @@ def run(tier, seed):
       "collapse of a union longer than max_union to Any is treated as a permitted rewrite",
       "inhabitants of a type are enumerated with caps (28 per type, 40 argument vectors per signature)",
   ]
-  if kinds["gen"] == 0:
+  if os.environ.get("VERIF_C11_ONLY"):
+    ck.assumptions.append("partial run: VERIF_C11_ONLY=" + os.environ["VERIF_C11_ONLY"])
+  elif kinds["gen"] == 0:
     ck.inconclusive("no generated unit was judged")
-  if monitor["checked"] == 0:
+  elif monitor["checked"] == 0:
     ck.inconclusive("the in-situ monitor on optimize.Optimize never ran")
   if ck.counters.get("idempotence_reruns", 0) == 0:
     ck.inconclusive("no idempotence re-run happened")
